@@ -75,8 +75,20 @@ pub fn docs(out: &mut Out, rng: &mut Rng, count: usize, mutated: bool, random_sc
         let s = if random_schema && i % 2 == 1 { gen::rand_schema(rng, &gen::SchemaOpts { wide_ids: i % 4 == 3, globals: true, max_depth: 4 }) } else { gen::s3() };
         let o = DocOpts { max_tags: 25, unk_prob: (if i % 3 == 0 { 1 } else { 0 }, 3), widths: i % 5 == 0, noncanon: i % 7 == 0, ..Default::default() };
         let doc: Vec<Node> = gen::rand_doc(rng, &s, &o);
+        let mut doc = doc;
+        // an element whose path has a placeholder with a minimum, put at a shallower place than that (at the root, after the
+        // document; or directly inside a root master): strict mode must refuse it
+        if mutated && i % 4 == 3 {
+            let lows: Vec<(&crate::dynspec::Entry, u64)> = s.entries.iter().filter(|e| e.ty != ebml_iterable::specs::TagDataType::Master)
+                .filter_map(|e| e.path.iter().filter_map(|p| match p { ebml_iterable::specs::PathPart::Global((Some(mn), _)) if *mn >= 1 => Some(*mn), _ => None }).max().map(|mn| (e, mn))).collect();
+            if !lows.is_empty() {
+                let (e, mn) = *rng.pick(&lows[..]);
+                let leaf = Node::leaf(e.id, gen::rand_val(rng, e.ty, false, false).0);
+                if mn >= 2 && !doc.is_empty() && doc[0].is_master() && rng.chance(1, 2) { doc[0].kids.push(leaf); } else { doc.push(leaf); }
+            }
+        }
         let mut bytes = gen::encode_doc(&doc);
-        if mutated { mutate(rng, &mut bytes); }
+        if mutated && i % 4 != 3 { mutate(rng, &mut bytes); }
         if bytes.len() > 3000 { continue; }
         begin(out, &mut n, &s, "single", json!({"mutated": mutated}));
         let cfgs = if mutated { all_cfgs(&s, rng) } else { vec![ReaderCfg::strict(), { let mut c = ReaderCfg::strict(); c.buffer = s.masters().into_iter().filter(|_| rng.chance(1, 2)).collect(); c }] };
@@ -206,6 +218,12 @@ pub fn buf(out: &mut Out, rng: &mut Rng, count: usize) {
         if bytes.len() > 1500 { continue; }
         let mut ms = Vec::new(); for d in &doc { d.masters(&mut ms); } ms.sort(); ms.dedup();
         if ms.is_empty() { continue; }
+        // every sixth case: reading starts in the middle of the document (at an inner tag): the implied ancestors may be in the buffered set
+        if i % 6 == 5 && i % 4 != 1 && i % 4 != 2 {
+            let lay = gen::layout(&doc);
+            let inner: Vec<usize> = lay.iter().filter(|l| l.depth >= 1).map(|l| l.off).collect();
+            if !inner.is_empty() { let at = *rng.pick(&inner[..]); bytes = bytes[at..].to_vec(); }
+        }
         let mut base = ReaderCfg::strict().with_allow(if i % 4 == 1 { rng.below(8) as u8 } else { 0 });
         base.max = MaxCfg::Some(65536);
         if i % 5 == 4 { base.eof_close = false; }
@@ -489,6 +507,14 @@ pub fn total(out: &mut Out, rng: &mut Rng, count: usize) {
             2 => { let n2 = rng.below(30); (0..n2).map(|_| *rng.pick(&SIGMA12)).collect() }
             _ => { let d = small_doc(rng, &s, 12, true); let mut b = gen::encode_doc(&d); mutate(rng, &mut b); b }
         };
+        // every eleventh case: a valid document in which every string payload starts with an invalid byte, masters buffered, and
+        // the caller reads on past each decode error (those consume their element)
+        let decode_errors = i % 11 == 10;
+        if decode_errors {
+            let d = small_doc(rng, &s, 24, false);
+            bytes = gen::encode_doc(&d);
+            for l in gen::layout(&d).iter() { if !l.is_master && l.size > 0 && s.get(l.id).map(|e| e.ty == ebml_iterable::specs::TagDataType::Utf8).unwrap_or(false) { bytes[l.off + l.hlen] = 0xff; } }
+        }
         bytes.truncate(1500);
         let mut c = ReaderCfg::strict().with_allow(rng.below(8) as u8);
         c.max = match rng.below(6) { 0 => MaxCfg::Default, 1 => MaxCfg::None, _ => MaxCfg::Some(*rng.pick(&[8usize, 64, 4096, 65536])) };
@@ -504,11 +530,12 @@ pub fn total(out: &mut Out, rng: &mut Rng, count: usize) {
             let kind = *rng.pick(&[std::io::ErrorKind::TimedOut, std::io::ErrorKind::ConnectionReset, std::io::ErrorKind::Other, std::io::ErrorKind::PermissionDenied]);
             sc.insert(k, Step::Err(kind, format!("injected-{}", rng.below(1000))));
         }
-        let calls = match rng.below(3) {
+        if decode_errors { c = ReaderCfg::strict(); c.buffer = s.masters().into_iter().filter(|_| rng.chance(2, 3)).collect(); c.max = MaxCfg::Some(1 << 20); }
+        let calls = if decode_errors { Calls::Script((0..80).map(|_| Call::Next).collect()) } else { match rng.below(3) {
             0 => Calls::UntilEnd { extra: 3, max_calls: 400 },
             1 => Calls::Recovering { extra: 2, max_calls: 400 },
             _ => Calls::Script((0..rng.range(1, 40)).map(|_| if rng.chance(1, 4) { Call::Recover } else { Call::Next }).collect()),
-        };
+        } };
         begin(out, &mut n, &s, "single", json!({}));
         run_reader::<DynTag>(out, "total", &bytes, &c, &sc, &calls);
         out.ev(json!({"ev":"end"}));
